@@ -325,3 +325,46 @@ ok('server-log-before-close', (RS, "                    logger.info('Client disc
 ok('frontend-extra-debug', (PRM, "                    logger.debug('Connection closed by the remote peer')\n", "                    logger.debug('Connection closed by the remote peer')\n                    logger.debug('giving up')\n"))
 ok('rename-dyn-table-class', [(PK, "class dyn_dispatch_table(dict):", "class DynDispatchTable(dict):"), (PK, "            self.dispatch_table = dyn_dispatch_table(self.remote_reduce, copyreg.dispatch_table)", "            self.dispatch_table = DynDispatchTable(self.remote_reduce, copyreg.dispatch_table)")])
 ok('pool-exit-inverted', (PO, "        if exc[0] is None:\n            self.close()\n        else:\n            self.terminate()", "        if exc[0] is not None:\n            self.terminate()\n        else:\n            self.close()"))
+
+
+def rn(name, rel, start, end, old, new):
+    ok('rename-' + name, (rel, ('rename', start, end, old), new))
+
+
+rn('pool-ok', PO, "    def run(self, *input_sources", "    def handle_new_worker(self, worker):", 'ok', 'success')
+rn('pool-ret', PO, "    def run(self, *input_sources", "    def handle_new_worker(self, worker):", 'ret', 'gathered')
+rn('pool-has_data', PO, "            def try_enqueue(worker):", "            def handle_new_result(worker, result):", 'has_data', 'got_one')
+rn('pool-inp', PO, "            def try_enqueue(worker):", "            def handle_new_result(worker, result):", 'inp', 'item')
+rn('pool-flag', PO, "            first_enqueue()\n", "            ok = (self._depleted", 'flag', 'valid')
+rn('pool-wid', PO, "            first_enqueue()\n", "            ok = (self._depleted", 'wid', 'worker_key')
+rn('pool-msg', PO, "            first_enqueue()\n", "            ok = (self._depleted", 'msg', 'message')
+rn('process-wait-alive', PR, "    def wait(self, timeout=None):", "    def terminate(self, timeout=1, force=True):", 'alive', 'still_alive')
+rn('process-terminate-alive', PR, "    def terminate(self, timeout=1, force=True):", "    def _get_result(self):", 'alive', 'still_alive')
+rn('remote-wait-result', RM, "    def wait(self, timeout=None, remote_timeout=None):", "    def terminate(self, timeout=5, force=True", 'result', 'reply')
+rn('recv_exact-chunk', RM, "def _recv_exact(sock, size):", "def recv_msg(sock", 'chunk', 'part')
+rn('recv_exact-size', RM, "def _recv_exact(sock, size):", "def recv_msg(sock", 'size', 'nbytes')
+rn('recv_msg-data_len', RM, "def recv_msg(sock", "def set_linger", 'data_len', 'length')
+rn('do_work-extra', PT, "    def do_work(self):", "    def _send_result(self, result):", 'extra', 'item')
+rn('do_work-args', PP, "    def do_work(self):", "    def _init_child(self):", 'args', 'positional')
+rn('worker-result-r', W, "    def result(self):", "    def user_state(self):", 'r', 'res')
+rn('thread-run-e', T, "    def _run(self):", "    def _cleanup(self):", 'e', 'exc')
+rn('process-run-result', PR, "    def _run(self):", "    def _init_child(self):", 'result', 'value')
+rn('backend-result', RM, "    def _run_backend(self):", "    def _init_child(self):", 'result', 'outcome')
+rn('server-cli', RS, "    def run(self):\n        if self.closed:", "class RemoteServerProcess", 'cli', 'client')
+rn('server-ctx_id', RS, "    def run(self):\n        if self.closed:", "class RemoteServerProcess", 'ctx_id', 'cid')
+rn('server-header', RS, "    def run(self):\n        if self.closed:", "class RemoteServerProcess", 'header', 'hdr')
+rn('frontend-flag', PRM, "    def _fetch_results(self):", "    # Do not transfer results queue", 'last_partial_result_signalled', 'end_signalled')
+rn('frontend-valid', PRM, "    def _fetch_results(self):", "    # Do not transfer results queue", 'valid', 'is_result')
+rn('break_patches-sub', ST, "    def break_patches(cls, names):", "    @staticmethod\n    def recreate_obj_and_patch_setstate", 'sub_patches', 'frames')
+rn('break_patches-dummy', ST, "    def break_patches(cls, names):", "    @staticmethod\n    def recreate_obj_and_patch_setstate", 'dummy', 'placeholder')
+rn('reduce-state', PK, "    def remote_reduce(self, obj):", "    def __init__(self, *args, remote=True", 'state', 'st')
+rn('cleanup_worker-alive', PO, "        def cleanup_worker(worker):", "        _cleanup_jobs = []", 'alive', 'still_alive')
+rn('restart-w', PO, "    def restart_workers(self", "    def run(self, *input_sources", 'w', 'wrk')
+rn('restart-queue', PO, "    def restart_workers(self", "    def run(self, *input_sources", 'queue', 'pipe')
+rn('ctrl_fn-sig', PR, "    def _ctrl_fn(self):", "ZZZ-END", 'sig', 'request')
+rn('ctrl_fn_remote-cmd', RM, "    def _ctrl_fn_remote(self):", "ZZZ-END", 'cmd', 'command')
+rn('setstate-ready', RM, "    def __setstate__(self, state):", "    def _run_backend(self):", 'ready', 'rdy')
+rn('setstate-incoming', RM, "    def __setstate__(self, state):", "    def _run_backend(self):", 'incoming', 'listener')
+rn('get_result-none', PR, "    def _start(self):", "    def _run(self):", 'ready', 'rdy')
+rn('active_children-cpy', W, "    def active_children():", "    def register_child(child):", 'cpy', 'snapshot')
+rn('autoclose-child', W, "def autoclose_active_children", "ZZZ-END", 'child', 'wrk')
